@@ -876,10 +876,12 @@ def spec_call(run: Any, name: str, n: ast.Call) -> Any:
             c = z3.Const(S.fresh_name('q_' + nm), S.sort(ty))
             bound.append(c)
             fr.locs[nm] = V(c, ty)
+        ex.bound = ex.bound + bound
         try:
             body = run.truth(lam.body)
         finally:
             fr.locs = saved
+            ex.bound = ex.bound[:len(ex.bound) - len(bound)]
         q = z3.ForAll if name == 'forall' else z3.Exists
         return V(q(bound, body), TBool)
     if name == 'implies':
